@@ -113,6 +113,13 @@ func TestStress(t *testing.T) {
 		k := callers[rng.Intn(len(callers))]
 		cfg := FreeCfg{Callers: k, CallsPer: 1 + rng.Intn(40), Seed: seed*1000 + int64(i), Dotu: rng.Intn(2) == 0, Window: 1 + rng.Intn(k),
 			Mix: true, ErrPct: 12, WrongPct: 6, PartialWr: rng.Intn(2) == 0, CutAt: -1}
+		if i%2 == 1 {
+			// coalescing transport: replies queued and delivered in chunks spanning frame boundaries,
+			// replies up to nearly msize, so the 8*msize receive buffer ends in the middle of a reply
+			cfg.Coalesce, cfg.BigReads = true, true
+			run(cfg, "coalesce")
+			continue
+		}
 		run(cfg, "mix")
 	}
 	for i := 0; i < sessions/4+1; i++ {
@@ -126,6 +133,7 @@ func TestStress(t *testing.T) {
 	if thorough {
 		seq, conc = 70000, 1100
 	}
+	run(FreeCfg{Callers: 32, CallsPer: 60, Seed: seed + 6, Dotu: true, Window: 32, Mix: true, ErrPct: 5, WrongPct: 2, CutAt: -1, Coalesce: true, BigReads: true}, "coalesce-wide")
 	run(FreeCfg{Callers: 1, CallsPer: seq, Seed: seed + 7, Dotu: true, Window: 1, ErrPct: 5, WrongPct: 2, CutAt: -1}, "wrap-seq")
 	if conc > 0 {
 		run(FreeCfg{Callers: 64, CallsPer: conc, Seed: seed + 8, Dotu: true, Window: 24, ErrPct: 5, WrongPct: 2, CutAt: -1}, "wrap-conc")
@@ -175,6 +183,15 @@ func TestOrders(t *testing.T) {
 			addFree(rep, f, "", freeReplay(cfg))
 			if len(rep.Samples) < 3 && n >= 3 {
 				rep.Samples = append(rep.Samples, map[string]any{"outstanding": n, "order": p})
+			}
+			if n >= 2 { // the same order with all replies arriving in one piece
+				cfg.Coalesce = true
+				f = RunFree(t, cfg)
+				rep.Cases++
+				if f.Hang != "" {
+					rep.AddViolation(hangKeyFree("healthy-connection:orders-coalesced", f), f.Hang, freeReplay(cfg))
+				}
+				addFree(rep, f, "", freeReplay(cfg))
 			}
 		}
 	}
@@ -236,6 +253,7 @@ func TestFaults(t *testing.T) {
 	if os.Getenv("VERIF_OVERSIZE") == "1" {
 		faults = append(faults, "oversize")
 	}
+	faults = append(faults, "halfclose")
 	only := os.Getenv("VERIF_ONLY_FAULT")
 	for _, fault := range faults {
 		if only != "" && fault != only {
@@ -243,6 +261,23 @@ func TestFaults(t *testing.T) {
 		}
 		for n := 0; n <= 4; n++ {
 			for ans := 0; ans <= n; ans++ {
+				if fault == "halfclose" {
+					// 1..4 calls outstanding, `fully` of them read by the peer, the next blocked mid-write
+					for fully := ans; fully <= n && n > 0; fully++ {
+						cfg := FreeCfg{Callers: n, CallsPer: 1, Seed: seed*137 + int64(n*25+ans*5+fully), Dotu: (n+fully)%2 == 0, ErrPct: 20,
+							Fault: fault, Answered: ans, FullyRead: fully, LateCalls: 2, CutAt: -1}
+						f := RunFree(t, cfg)
+						rep.Cases++
+						if f.Hang != "" {
+							rep.AddViolation(hangKeyFree("halfclose", f), fmt.Sprintf("%d outstanding, %d read by the peer (next mid-write: %v), %d answered, then the peer ends its sending direction and stops reading: %s",
+								n, fully, fully < n, ans, f.Hang), freeReplay(cfg))
+						} else {
+							judgeFailure(f)
+						}
+						addFree(rep, f, "halfclose:", freeReplay(cfg))
+					}
+					continue
+				}
 				cfg := FreeCfg{Callers: n, CallsPer: 1, Seed: seed*131 + int64(n*7+ans), Dotu: (n+ans)%2 == 0, ErrPct: 20, Fault: fault, Answered: ans, LateCalls: 2, CutAt: -1}
 				f := RunFree(t, cfg)
 				rep.Cases++
